@@ -534,7 +534,7 @@ _check_c17_base = check_c17
           "class is read from its regular expressions — accept(writer) must be included in accept(reader) for the first and the body "
           "characters, and the repair's replacement character must be accepted; I2 the writer's length bound is within the reader's, and "
           "every path of the conflict repair that lengthens the identifier re-applies the length repair before recursing or returning; "
-          "I3 the conflict test compares case-folded values on both sides and scans every sibling (no break / early exit); I4 every element "
+          "I3 the conflict test compares case-folded values on both sides, scans every sibling (no break / early exit) and looks at both the names and the identifiers already given to siblings; I4 every element "
           "is made unique against the container it is listed in (no stale loop variable, sibling list = iterated container) and no sibling "
           "identifier is exempted from the test. Decides legality of the character set, the bound, the folding and the scope of the "
           "uniqueness test; termination/uniqueness of the _sdn_N_ search is not decided.")
